@@ -37,7 +37,7 @@ package gossipval
 //@ func (s Spec) Spec() r
 //@   trusted
 //@   opt noalloc
-//@   ensures r == gv_spec(s) && r != nil
+//@   ensures r == gv_spec(s) && r != nil && r.SLOTS_PER_EPOCH != 0
 
 //@ func (h HeadInfo) HeadInfo(ctx) (entry, epc, state, err)
 //@   trusted
@@ -85,3 +85,62 @@ package gossipval
 //@   ensures accept: res.Result == ACCEPT <==> (!gv_seen_pslash(old(gvver), propSl.SignedHeader1.Message.ProposerIndex) && !gv_head_err(old(gvver)) && pslash_ok(gv_spec(propSlVal), gv_head_epc(old(gvver)), gv_head_state(old(gvver)), *propSl))
 //@   ensures reject: res.Result == REJECT ==> !pslash_nosig_ok(gv_spec(propSlVal), *propSl) || (!gv_seen_pslash(old(gvver), propSl.SignedHeader1.Message.ProposerIndex) && !gv_head_err(old(gvver)) && !pslash_ok(gv_spec(propSlVal), gv_head_epc(old(gvver)), gv_head_state(old(gvver)), *propSl))
 //@   ensures marks: n_mark_pslash == old(n_mark_pslash) + ite(res.Result == ACCEPT, 1, 0) && (res.Result == ACCEPT ==> last_mark_pslash == propSl.SignedHeader1.Message.ProposerIndex) && (res.Result != ACCEPT ==> gvver == old(gvver))
+
+// ---------------------------------------------------------------- beacon_block topic (C12)
+
+//@ ghost n_mark_block int
+//@ ghost last_mark_block_slot int
+//@ ghost last_mark_block_proposer int
+//@ sort SlotT = common.Slot
+//@ sort RootT = common.Root
+//@ sort PcPtr = *common.PubkeyCache
+//@ sort CPubP = *common.CachedPubkey
+//@ ufun gv_slot_after(int, int) SlotT
+//@ ufun gv_seen_block(int, SlotT, VIdx) bool
+//@ ufun gv_chain(BackendI) int
+//@ ufun gv_gvr(BackendI) RootT
+
+//@ func (s SlotAfter) SlotAfter(delta) r
+//@   trusted
+//@   opt noalloc
+//@   ensures r == gv_slot_after(gvver, delta)
+
+//@ func (c Chain) Chain() r
+//@   trusted
+//@   opt noalloc
+//@   ensures r != nil
+
+//@ func (g GenesisValidatorsRoot) GenesisValidatorsRoot() r
+//@   trusted
+//@   opt noalloc
+//@   ensures r == gv_gvr(g)
+
+//@ func (b BeaconBlockValBackend) SeenBlock(slot, proposer) r
+//@   trusted
+//@   opt noalloc
+//@   ensures r == gv_seen_block(gvver, slot, proposer)
+
+//@ func (b BeaconBlockValBackend) MarkBlock(slot, proposer)
+//@   trusted
+//@   opt noalloc
+//@   assigns ghost(gvver), ghost(n_mark_block), ghost(last_mark_block_slot), ghost(last_mark_block_proposer)
+//@   ensures n_mark_block == old(n_mark_block) + 1 && last_mark_block_slot == slot && last_mark_block_proposer == proposer
+
+// ACCEPT implies every condition of the beacon_block topic that is expressible over the
+// back-end model; REJECT implies that a REJECT-class condition failed; the seen-cache is
+// marked iff ACCEPT.  (Which key the pubkey cache returns for the proposer is not
+// expressible: the signature condition is stated for some cached key.)
+//@ func ValidateBeaconBlock(ctx, block, blockVal) res
+//@   property C12
+//@   requires block != nil && blockVal != nil
+//@   requires gv_spec(blockVal).ALTAIR_FORK_EPOCH <= gv_spec(blockVal).BELLATRIX_FORK_EPOCH && gv_spec(blockVal).BELLATRIX_FORK_EPOCH <= gv_spec(blockVal).CAPELLA_FORK_EPOCH && gv_spec(blockVal).CAPELLA_FORK_EPOCH <= gv_spec(blockVal).DENEB_FORK_EPOCH && gv_spec(blockVal).DENEB_FORK_EPOCH <= gv_spec(blockVal).ELECTRA_FORK_EPOCH && gv_spec(blockVal).ELECTRA_FORK_EPOCH <= gv_spec(blockVal).FULU_FORK_EPOCH
+//@   requires caches: forall r PcPtr :: {pctrig(r)} pctrig(r) && alloc(r) ==> pc_local(r.pub2idx, r.idx2pub, r.trustedParentCount) && pc_chain(r.parent, r, r.trustedParentCount, r.parent.trustedParentCount, len(r.parent.idx2pub))
+//@   requires nolocks: forall r PcPtr :: {held(r.rwLock)} held(r.rwLock) == 0
+//@   assigns ghost(gvver), ghost(n_mark_block), ghost(last_mark_block_slot), ghost(last_mark_block_proposer), heap(CachedPubkey.decompressed)
+//@   ensures accept_timing: res.Result == ACCEPT ==> block.Slot <= gv_slot_after(old(gvver), MAXIMUM_GOSSIP_CLOCK_DISPARITY) && !gv_seen_block(old(gvver), block.Slot, block.ProposerIndex)
+//@   ensures accept_parent: res.Result == ACCEPT ==> ch_known(old(gvver), block.ParentRoot) && ce_step(ch_entry(old(gvver), block.ParentRoot)) / 2 < block.Slot
+//@   ensures accept_finalized: res.Result == ACCEPT ==> !ch_unknown(old(gvver), ch_fin(old(gvver)).Root, block.ParentRoot) && ch_insub(old(gvver), ch_fin(old(gvver)).Root, block.ParentRoot) && (ch_fin(old(gvver)).Epoch * gv_spec(blockVal).SLOTS_PER_EPOCH < 18446744073709551616 ==> block.Slot > ch_fin(old(gvver)).Epoch * gv_spec(blockVal).SLOTS_PER_EPOCH)
+//@   ensures accept_signature: res.Result == ACCEPT ==> (exists p CPubP :: env_sig_ok(block.Slot, gv_spec(blockVal).SLOTS_PER_EPOCH, gv_spec(blockVal).ALTAIR_FORK_EPOCH, gv_spec(blockVal).BELLATRIX_FORK_EPOCH, gv_spec(blockVal).CAPELLA_FORK_EPOCH, gv_spec(blockVal).DENEB_FORK_EPOCH, gv_spec(blockVal).ELECTRA_FORK_EPOCH, gv_spec(blockVal).FULU_FORK_EPOCH, gv_spec(blockVal).GENESIS_FORK_VERSION, gv_spec(blockVal).ALTAIR_FORK_VERSION, gv_spec(blockVal).BELLATRIX_FORK_VERSION, gv_spec(blockVal).CAPELLA_FORK_VERSION, gv_spec(blockVal).DENEB_FORK_VERSION, gv_spec(blockVal).ELECTRA_FORK_VERSION, gv_spec(blockVal).FULU_FORK_VERSION, block.ProposerIndex, block.ProposerIndex, block.ForkDigest, block.BlockRoot, block.Signature, p.Compressed, common.DOMAIN_BEACON_PROPOSER, gv_gvr(blockVal)))
+//@   ensures accept_proposer: res.Result == ACCEPT ==> (let pe := ch_entry(old(gvver), block.ParentRoot) in let spe := gv_spec(blockVal).SLOTS_PER_EPOCH in ((ce_step(pe) / 2) / spe == block.Slot / spe ==> epc_proposer(ce_epc(pe), block.Slot) == block.ProposerIndex) && ((ce_step(pe) / 2) / spe != block.Slot / spe ==> (ce_step(pe) / 2) / spe < block.Slot / spe && (exists ts SlotT :: epc_proposer(ce_epc(ch_towards(old(gvver), block.ParentRoot, ts)), block.Slot) == block.ProposerIndex)))
+//@   ensures reject_class: res.Result == REJECT ==> ch_known(old(gvver), block.ParentRoot) && block.Slot <= gv_slot_after(old(gvver), MAXIMUM_GOSSIP_CLOCK_DISPARITY) && !gv_seen_block(old(gvver), block.Slot, block.ProposerIndex)
+//@   ensures marks: n_mark_block == old(n_mark_block) + ite(res.Result == ACCEPT, 1, 0) && (res.Result == ACCEPT ==> last_mark_block_slot == block.Slot && last_mark_block_proposer == block.ProposerIndex)
